@@ -372,6 +372,43 @@ func init() {
 		relid, _ := strconv.ParseUint(args[1], 10, 32)
 		return strings.Join(relResults(core.Atoi(args[0]), uint32(relid), unhex(args[2]), unhex(args[3])), ";")
 	})
+	// toastrel2: args = mode, relidA, fileA, relidB, fileB, pointers — ONE reader holding two relations whose value ids collide
+	core.Register("toastrel2", func(args []string) string {
+		relA, _ := strconv.ParseUint(args[1], 10, 32)
+		relB, _ := strconv.ParseUint(args[3], 10, 32)
+		fileA, fileB, ptrs := unhex(args[2]), unhex(args[4]), unhex(args[5])
+		var r *pgdump.TOASTReader
+		if core.Atoi(args[0]) == 1 {
+			r = pgdump.NewTOASTReader()
+			r.LoadTOASTTable(uint32(relA), fileA)
+			r.LoadTOASTTable(uint32(relB), fileB)
+		} else {
+			dir, err := os.MkdirTemp("", "verif-toast2-")
+			if err != nil {
+				panic(err)
+			}
+			defer os.RemoveAll(dir)
+			const dbOID = 16384
+			base := filepath.Join(dir, "base", strconv.Itoa(dbOID))
+			if err := os.MkdirAll(base, 0o755); err != nil {
+				panic(err)
+			}
+			for _, f := range []struct {
+				id   uint64
+				data []byte
+			}{{relA, fileA}, {relB, fileB}} {
+				if err := os.WriteFile(filepath.Join(base, strconv.FormatUint(f.id, 10)), f.data, 0o644); err != nil {
+					panic(err)
+				}
+			}
+			r = pgdump.NewTOASTReaderForDB(dir, dbOID)
+		}
+		var out []string
+		for _, pb := range split18(ptrs) {
+			out = append(out, showOB(r.ReadValue(pb)))
+		}
+		return strings.Join(out, ";")
+	})
 	// pglz, lz4: args = pointer, stored bytes, cuts, order
 	stream := func(args []string) string {
 		return streamResult(unhex(args[0]), unhex(args[1]), parseNats(args[2]), parseNats(args[3]))
